@@ -28,8 +28,8 @@ LEVEL_TEXT = ("Exploration over the layout product: the header scanner's behavio
 LEVEL_NOTE = "Trusts ref_header.py / ref_sgml.py. Files are built from bytes the generator controls; real FI quirks outside the listed layouts are out of scope."
 DESIGN_REF = "DESIGN.md §3 C05"
 EXHAUSTIVE = {"thorough": "full v1 layout product (5 separators x 3 colon-blank x 4 leading-blank x 6 gaps x compression x 9 encoding pairs) and v2 product (2x2 quotes x 3x3 breaks x 7 versions)"}
-MIN_COUNTERS = {"quick": {"v1_files": 2500, "v2_files": 250, "nonascii_bodies": 800, "tree_checked": 2500},
-                "thorough": {"v1_files": 35000, "v2_files": 1500, "nonascii_bodies": 10000, "tree_checked": 35000}}
+MIN_COUNTERS = {"quick": {"big_bodies": 40, "mojibake_bodies": 100, "v1_files": 2500, "v2_files": 250, "nonascii_bodies": 800, "tree_checked": 2500},
+                "thorough": {"big_bodies": 150, "mojibake_bodies": 1000, "v1_files": 35000, "v2_files": 1500, "nonascii_bodies": 10000, "tree_checked": 35000}}
 
 SEPS = {"crlf": "\r\n", "lf": "\n", "cr": "\r", "none": "", "blank": " "}
 CODECS = {"ISO-8859-1": "latin_1", "1252": "cp1252", "NONE": "utf_8"}
@@ -45,7 +45,25 @@ def timeout(tier):
     return 300 if tier == "quick" else 1500
 
 
-def body_for(rng, codec, ascii_only):
+MOJIBAKE = ["CafÃ©", "â‚¬5", "Ã¼ber", "naÃ¯ve", "Â©", "Ã±"]  # cp1252/latin-1 texts whose bytes happen to be well-formed UTF-8
+
+
+def big_body(rng, codec, align):
+    """> 64 KiB of multi-byte characters placed so that one straddles every 65536-byte boundary at some alignment."""
+    ch = {"utf_8": rng.choice(["é", "汉", "😀"]), "latin_1": "é", "cp1252": "€"}[codec]
+    unit = f"<MEMO>{ch * 40}</MEMO>"
+    n = 140000 // len(unit.encode(codec)) + 1
+    tree = ("OFX", [("NAME", "x" * align)] + [("MEMO", ch * 40)] * n) if align else ("OFX", [("MEMO", ch * 40)] * n)
+    text = "<OFX>" + (f"<NAME>{'x' * align}</NAME>" if align else "") + unit * n + "</OFX>"
+    return tree, text
+
+
+def body_for(rng, codec, ascii_only, mojibake=False):
+    if mojibake:
+        # the ONLY non-ASCII content is mojibake-looking: decoding it as UTF-8 would 'succeed' - and be wrong
+        tree = ("OFX", [("NAME", rng.choice(MOJIBAKE) + " " + rng.choice(MOJIBAKE)), ("MEMO", rng.choice(MOJIBAKE))])
+        return tree, render.random_rendering(tree, rng).strip()
+
     def datagen(r):
         base = "".join(r.choice("abcXYZ019 -_.;:/%&") for _ in range(r.randint(1, 8))).strip() or "x"
         base = base.replace("&", "&amp;")
@@ -178,7 +196,14 @@ def run_shard(ctx):
         for enc, cs in (ENC_PAIRS * 6 if thorough else rng.sample(ENC_PAIRS, 5)):
             codec = CODECS[cs]
             ascii_only = not nonascii_allowed(enc, cs) or rng.random() < 0.15
-            tree, body = body_for(rng, codec, ascii_only)
+            moji = (not ascii_only) and cs in ("ISO-8859-1", "1252") and rng.random() < 0.25
+            tree, body = body_for(rng, codec, ascii_only, mojibake=moji)
+            if moji:
+                try:
+                    body.encode(codec)
+                    ctx.count("mojibake_bodies")
+                except UnicodeEncodeError:
+                    tree, body = body_for(rng, codec, ascii_only)
             F = {"OFXHEADER": "100", "DATA": "OFXSGML", "VERSION": str(rng.choice([102, 103, 151, 160])), "SECURITY": rng.choice(["NONE", "TYPE1"]),
                  "ENCODING": enc, "CHARSET": cs, "OLDFILEUID": rng.choice(["NONE", "".join(rng.choice(UIDCHARS) for _ in range(rng.randint(1, 36)))]),
                  "NEWFILEUID": rng.choice(["NONE", "".join(rng.choice(UIDCHARS) for _ in range(rng.randint(1, 36)))])}
@@ -194,6 +219,23 @@ def run_shard(ctx):
             k += 1
             if k % 150 == 1:
                 ctx.sample({"file": data[:260].decode("latin_1"), "layout": feat})
+    # bodies larger than 64 KiB with a multi-byte character across every block boundary (both header kinds)
+    if ctx.shard < (4 if not thorough else 16):
+        for align in range(0, 4):
+            for kind, codec, cs, enc in (("v2", "utf_8", None, None), ("v1", "utf_8", "NONE", "UNICODE"), ("v1", "cp1252", "1252", "USASCII")):
+                tree, body = big_body(rng, codec, align + ctx.shard * 4)
+                if kind == "v2":
+                    F = {"OFXHEADER": "200", "VERSION": "220", "SECURITY": "NONE", "OLDFILEUID": "NONE", "NEWFILEUID": "NONE"}
+                    data = v2_file(F, '"', '"', "\r\n", "\r\n", "", body, "")
+                    feat = {"q": "dd", "br": "22", "lead": 0, "big": True}
+                else:
+                    F = {"OFXHEADER": "100", "DATA": "OFXSGML", "VERSION": "160", "SECURITY": "NONE", "ENCODING": enc, "CHARSET": cs, "COMPRESSION": "NONE",
+                         "OLDFILEUID": "NONE", "NEWFILEUID": "NONE"}
+                    data = v1_file(F, "\r\n", 0, "", "\r\n\r\n", True, body, codec, "")
+                    feat = {"sep": "crlf", "gapclass": "ws", "big": True, "enc": enc, "cs": cs}
+                check(ctx, data, kind, F, body, tree, feat)
+                ctx.count("big_bodies")
+                ctx.distinct(("big", kind, codec, align, ctx.shard))
     # v2
     brs = ["", "\n", "\r\n"]
     v2l = list(itertools.product(['"', "'"], ['"', "'"], brs, brs, [200, 201, 202, 203, 210, 211, 220]))
